@@ -54,7 +54,7 @@ func shaped(p *actlang.Prog, shape int) *actlang.Prog {
 
 func c08Programs(maxLen int) []*actlang.Prog {
 	nonterm := []Op{{K: actlang.Emit, V: M{"m": 1.0}}, {K: actlang.Emit, V: M{"m": 2.0}}, {K: actlang.Set, A: "x", V: 1.0}}
-	terms := []Op{{K: actlang.Throw}, {K: actlang.RetScalar}, {K: actlang.RetArray}, {K: actlang.Spin}, {K: actlang.EmitBad, A: "nan"}, {K: actlang.RetNull}}
+	terms := []Op{{K: actlang.Throw}, {K: actlang.ThrowVal, A: "object"}, {K: actlang.ThrowVal, A: "error"}, {K: actlang.ThrowVal, A: "null"}, {K: actlang.RetScalar}, {K: actlang.RetArray}, {K: actlang.Spin}, {K: actlang.EmitBad, A: "nan"}, {K: actlang.RetNull}}
 	var out []*actlang.Prog
 	var prefixes [][]Op
 	level := [][]Op{{}}
@@ -242,7 +242,7 @@ func C08(c *vh.Ctx) {
 	if c.Shard == 0 {
 		c.Count("programs", int64(len(progs)))
 	}
-	c.Rule("every ECMAScript program = prefix over {emit m1, emit m2, set} (for programs of up to 3 operations m2 also ranges over 10 message shapes: maps with an emit / to / error key, strings, numbers, arrays, empty and nested maps, booleans) (any order, up to the bound) optionally ended by one of {throw, return scalar, return array, loop until cancelled (cancel delivered at tick 3 through the harness context), emit an unserialisable value, return null}; placed as the action at position 1, 2 or 3 of a chain of three emitting actions, or as the guard between them; error routing none / ActionErrorNode / ActionErrorBranches (the handler emits and resumes the chain); observed through Spec.Walk (per-stride Emitted and DoEmitted) and through sio.Crew.ProcessMsg (Result.Emitted); oracle: emitted == concatenation of the emits of the successfully completed actions in execution order. non-trivial = program emits and then fails.")
+	c.Rule("every ECMAScript program = prefix over {emit m1, emit m2, set} (for programs of up to 3 operations m2 also ranges over 10 message shapes: maps with an emit / to / error key, strings, numbers, arrays, empty and nested maps, booleans) (any order, up to the bound) optionally ended by one of {throw a string, throw an object with properties, throw an Error, throw null, return scalar, return array, loop until cancelled (cancel delivered at tick 3 through the harness context), emit an unserialisable value, return null}; placed as the action at position 1, 2 or 3 of a chain of three emitting actions, or as the guard between them; error routing none / ActionErrorNode / ActionErrorBranches (the handler emits and resumes the chain); observed through Spec.Walk (per-stride Emitted and DoEmitted) and through sio.Crew.ProcessMsg (Result.Emitted); oracle: emitted == concatenation of the emits of the successfully completed actions in execution order. non-trivial = program emits and then fails.")
 	var idx uint64
 	for _, p := range progs {
 		for pos := 0; pos <= 3; pos++ {
